@@ -148,7 +148,7 @@ def promote(a: DT, b: DT, op='mul'):
 
 # ---- buffers and variables -----------------------------------------------------------------------
 class Buf:
-    __slots__ = ('id', 'origin', 'val', 'nan', 'defd', 'rel', 'unit', 'dtype', 'viewed', 'tag')
+    __slots__ = ('id', 'origin', 'val', 'nan', 'defd', 'rel', 'unit', 'dtype', 'viewed', 'tag', 'inf')
 
     def __init__(self, val, unit, dtype, origin='fresh', nan=None, defd=None, rel=Fr(0), tag=None):
         self.id = next(core._cnt)
@@ -161,10 +161,11 @@ class Buf:
         self.dtype = dtype
         self.viewed = False
         self.tag = tag
+        self.inf = 0   # +1 / -1: this (scalar) value is +inf / -inf on this path (always concrete)
 
 
 def _kind(dt):
-    if dt == VEC:
+    if dt == VEC or dt.name == 'row3':
         return 'vec'
     if dt in MATS:
         return 'mat'
@@ -278,6 +279,8 @@ class Var:
 
     @property
     def values(self):
+        if self.dtype == ROW3:
+            return _RowValues(self)
         return self.value
 
     @property
@@ -337,6 +340,8 @@ class Var:
         b = a._co(b)
         if b is None:
             return NotImplemented
+        if a.buf.inf or b.buf.inf:
+            raise Unsupported('multiplication with an infinite value')
         dt = promote(a.dtype, b.dtype)
         ka, kb = _kind(a.dtype), _kind(b.dtype)
         u = a.unit * b.unit
@@ -407,6 +412,13 @@ class Var:
             return NotImplemented
         if a.unit != b.unit:
             raise UnitError(f'Cannot {opname} {a.unit} and {b.unit}.')
+        if a.buf.inf or b.buf.inf:
+            ki = a.buf.inf + sg * b.buf.inf
+            if a.buf.inf and b.buf.inf and a.buf.inf != sg * b.buf.inf:
+                raise Unsupported('inf - inf')
+            r = a._new(tz(0), a.unit, promote(a.dtype, b.dtype, opname), b)
+            r.buf.inf = 1 if ki > 0 else -1
+            return r
         dt = promote(a.dtype, b.dtype, opname)
         ka, kb = _kind(a.dtype), _kind(b.dtype)
         if ka != kb:
@@ -434,6 +446,10 @@ class Var:
         return NotImplemented if b is None else b._add(a, -1, 'subtract')
 
     def __neg__(a):
+        if a.buf.inf:
+            r = a._new(tz(0), a.unit, a.dtype)
+            r.buf.inf = -a.buf.inf
+            return r
         k = _kind(a.dtype)
         v = -a.val if k == 'scalar' else ([-x for x in a.val] if k == 'vec' else [[-x for x in r] for r in a.val])
         return a._new(v, a.unit, a.dtype, None, a.buf.nan, a.buf.defd, a.buf.rel)
@@ -539,6 +555,13 @@ class Var:
                     t = z3.Not(t)
                 return a._new(t, None, BOOL, b)
             raise DTypeError(f"'{name}' does not support vectors")
+        if a.buf.inf or b.buf.inf:
+            ka, kb = a.buf.inf, b.buf.inf
+            res = {'less': ka < kb, 'less_equal': ka <= kb, 'greater': ka > kb, 'greater_equal': ka >= kb,
+                   'eq': ka == kb, 'ne': ka != kb}[name]
+            if (ka == 0) != (kb == 0) or ka != kb:
+                pass
+            return a._new(z3.BoolVal(res), None, BOOL, b)
         t = op(a.val, b.val)
         # comparisons with NaN are False (True for !=)
         nn = _or(a.buf.nan, b.buf.nan)
@@ -596,7 +619,9 @@ class Var:
         v = b.val
         if isinstance(v, list):
             v = [list(r) if isinstance(r, list) else r for r in v]
-        return Var(Buf(v, b.unit, b.dtype, nan=b.nan, defd=b.defd, rel=b.rel), self.dims, self._sizes)
+        r = Var(Buf(v, b.unit, b.dtype, nan=b.nan, defd=b.defd, rel=b.rel), self.dims, self._sizes)
+        r.buf.inf = b.inf
+        return r
 
     def __copy__(self):
         return self.copy(deep=False)
@@ -668,6 +693,11 @@ class Var:
             return self.astype(dtype, copy=copy)._to_unit(unit, copy=False)
         return self._to_unit(unit, copy=copy).astype(dtype, copy=False)
 
+    def transpose(self, dims=None):
+        if self.dtype == ROW3 or len(self.dims) <= 1:
+            return self
+        raise Unsupported('transpose')
+
     def max(self, dim=None):
         return max_(self, dim)
 
@@ -737,7 +767,9 @@ def scalar(value, *, variance=None, unit=_DEFAULT, dtype=None):
         if isinstance(fv, float) and fv != fv:
             val, nan = tz(0), z3.BoolVal(True)
         elif isinstance(fv, float) and fv in (math.inf, -math.inf):
-            raise Unsupported('infinite scalar')
+            v = Var(Buf(tz(0), _default_unit(unit), norm_dtype(dtype) if dtype is not None else F64))
+            v.buf.inf = 1 if fv > 0 else -1
+            return v
         else:
             val = tz(value if isinstance(value, (int, Fr)) else float(value))
     elif isinstance(value, str):
@@ -752,6 +784,49 @@ def vector(value, *, unit=_DEFAULT):
     if len(vals) != 3:
         raise Unsupported('vector of length != 3')
     return Var(Buf(vals, _default_unit(unit), VEC))
+
+
+ROW3 = DT('row3')   # three scalars stacked along a new inner dimension (only: concat -> transpose -> .values -> vectors)
+
+
+class _RowValues:
+    def __init__(self, var):
+        self.var = var
+
+
+def concat(xs, dim):
+    xs = list(xs)
+    if len(xs) == 3 and all(isinstance(x, Var) and _kind(x.dtype) == 'scalar' and x.dtype in FLOATS for x in xs) \
+            and all(dim not in x.dims for x in xs) and xs[0].unit == xs[1].unit == xs[2].unit:
+        r = xs[0]._new([x.val for x in xs], xs[0].unit, ROW3, None, _or(*[x.buf.nan for x in xs]), _and(*[x.buf.defd for x in xs]),
+                       None, dims=_udims((dim,), *[x.dims for x in xs]))
+        return r
+    raise Unsupported('sc.concat outside the modelled pattern (three scalars along a new dimension)')
+
+
+def vectors(*, dims, values, unit=_DEFAULT):
+    if isinstance(values, _RowValues):
+        v = values.var
+        want = tuple(d for d in v.dims if d in dims)
+        return Var(Buf(list(v.val), _default_unit(unit), VEC, nan=v.buf.nan, defd=v.buf.defd), want, v._sizes)
+    raise Unsupported('sc.vectors from concrete values')
+
+
+def rotations_from_rotvecs(u):
+    """Assumed contract (Rodrigues): rotation by angle |u| about u/|u|; R = C I + S [k]x + (1-C) k k^T, S^2 + C^2 = 1."""
+    if u.dtype != VEC or u.unit is None or u.unit.dims != {'rad': Fr(1)}:
+        raise UnitError('rotations_from_rotvecs requires a rotation vector in rad/deg')
+    f = u.unit.term() if not u.unit.is_one_scale() else None
+    uv = [x * f for x in u.val] if f is not None else list(u.val)
+    th = sqrt_term(sum(x * x for x in uv), nonneg=True)
+    k = [x / th for x in uv]
+    S, C = SIN(th), COS(th)
+    K = [[0, -k[2], k[1]], [k[2], 0, -k[0]], [-k[1], k[0], 0]]
+    Rm = [[(C if i == j else 0) + S * K[i][j] + (1 - C) * k[i] * k[j] for j in range(3)] for i in range(3)]
+    Rm = [[tz(e) if not isinstance(e, z3.ExprRef) else e for e in r] for r in Rm]
+    ctx().log.append(('rotvec', uv, th, S, C, Rm))
+    core.assume(S * S + C * C == 1)
+    return u._new(Rm, ONE, DType.rotation3, None, u.buf.nan, _and(u.buf.defd, th != 0), None)
 
 
 def index(value, dtype=None):
@@ -920,8 +995,19 @@ def where(condition, x, y):
         raise UnitError(f'Expected unit {x.unit}, got {y.unit}.')
     if x.dtype != y.dtype:
         raise DTypeError(f"'where' does not support dtypes 'bool', '{x.dtype}', '{y.dtype}', ")
+    if x.dtype == BOOL:
+        r = x._new(z3.If(condition.val, x.val, y.val), None, BOOL, y, dims=_udims(condition.dims, x.dims, y.dims))
+        r._sizes.update(condition._sizes)
+        return r
     c = condition.val
     k = _kind(x.dtype)
+    if x.buf.inf or y.buf.inf:
+        # an infinite branch: decide the (element-generic) condition on this path, the result is that branch
+        src = x if core.decide(c, 'where-with-infinite-branch') else y
+        r = src.copy()
+        r.dims = _udims(condition.dims, x.dims, y.dims)
+        r._sizes.update(condition._sizes)
+        return r
     if k == 'scalar':
         v = z3.If(c, x.val, y.val)
     elif k == 'vec':
@@ -1055,6 +1141,7 @@ def build_modules():
     spatial.inv = _inv
     spatial.as_vectors = _as_vectors
     spatial.linear_transform = linear_transform
+    spatial.rotations_from_rotvecs = rotations_from_rotvecs
     for k, v in dict(
         Unit=Unit, Variable=Var, DType=DType, DTypeError=DTypeError, DimensionError=DimensionError,
         UnitError=UnitError, CoordError=CoordError, VariancesError=VariancesError, BinEdgeError=BinEdgeError,
@@ -1062,7 +1149,7 @@ def build_modules():
         units=units, constants=const, typing=typing_, spatial=spatial,
         scalar=scalar, vector=vector, index=index, to_unit=to_unit, sqrt=sqrt, reciprocal=reciprocal,
         sin=sin, cos=cos, atan2=atan2, asin=asin, acos=acos, exp=exp, log=log, norm=norm, dot=dot, cross=cross,
-        where=where, any=any_, all=all_, max=max_, min=min_, abs=abs_, isnan=isnan, identical=identical,
+        concat=concat, vectors=vectors, where=where, any=any_, all=all_, max=max_, min=min_, abs=abs_, isnan=isnan, identical=identical,
     ).items():
         setattr(sc, k, v)
     return {'scipp': sc, 'scipp.units': units, 'scipp.constants': const, 'scipp.typing': typing_,
